@@ -110,6 +110,34 @@ Theorem C01_token_step : forall t s s' o, Inv s -> TokInv s -> no_peek (g_r s) -
 Proof. exact tok_step. Qed.
 Print Assumptions C01_token_step.
 
+(* ... and no lost-wake-up deadlock: if the reader is blocked in sem_wait (its step is not enabled although its program
+   is not finished) and the writer has nothing left to do, then nothing published is unread *)
+Theorem C01_no_lost_wakeup_deadlock : forall h pw pr sched, wf_ring h -> Forall (fun c => is_peek c = false) pr ->
+  let s := exec sched (init h pw pr) in
+  r_prog (g_r s) <> [] -> step TR s = None -> step TW s = None ->
+  length (g_got s) = length (g_pub s).
+Proof. exact all_no_deadlock. Qed.
+Print Assumptions C01_no_lost_wakeup_deadlock.
+
+(* buffer-full is exact: the admission test of a write (step WRdRpt) is evaluated on the true content of the ring at
+   that moment - the write is refused exactly when the unread chunks (+ the gap word) leave less than len + MARGIN
+   bytes; in particular an empty ring accepts every len <= 4W - MARGIN *)
+Theorem C01_refusal_exact : forall s w1 r, Inv s -> w_pc (g_w s) = WRdRpt w1 -> wstep (g_sh s) (g_w s) = Some r ->
+  (s_ret r = Some (- RB_EAGAIN, []) <->
+   room_bytes (hW (g_sh s)) (unread s) < zlen (wdata (g_w s)) + RB_CHUNK_MARGIN).
+Proof. exact refusal_exact. Qed.
+Print Assumptions C01_refusal_exact.
+
+(* buffer-empty is never spurious: while a published chunk is unread, the pointer test and the marker test of
+   read / peek / reclaim pass *)
+Theorem C01_no_spurious_empty : forall s r, Inv s -> unread s <> [] -> rstep (g_sh s) (g_r s) = Some r ->
+  (forall rp, r_pc (g_r s) = RRdWpt rp -> r_pc (s_t r) = RRdMagic rp /\ s_ret r = None) /\
+  (forall rp, r_pc (g_r s) = RRdMagic rp -> r_pc (s_t r) = RRdSize rp /\ s_ret r = None) /\
+  (forall rp, r_pc (g_r s) = RcRdWpt rp -> r_pc (s_t r) = RcRdMagic rp /\ s_ret r = None) /\
+  (forall rp, r_pc (g_r s) = RcRdMagic rp -> r_pc (s_t r) = RcRdSize1 rp /\ s_ret r = None).
+Proof. exact no_spurious_empty. Qed.
+Print Assumptions C01_no_spurious_empty.
+
 (* a write reports success only by publishing its chunk: the return of the length happens in the publishing step
    itself, or in the sem_post step that is entered only from the publishing step of the same call *)
 Theorem C01_success_means_published : forall h t r v l, wstep h t = Some r -> s_ret r = Some (v, l) -> 0 <= v ->
